@@ -105,6 +105,10 @@ def plans():
         {'name': 'user_generator', 'schema': 'gen19', 'spec': 'SpecVal', 'alpha': {'newv', 'gen'}, 'vals': VALS,
          'gen': 'user', 'userids': USERIDS, 'bound': {'H': 1, 'G': 1}, 'invariants': inv, 'properties': props,
          'budget': 5000, 'maxlen': 12, 'random': random_runs},
+        # (a user generator that redefines next() / peek() themselves instead of readfunc)
+        {'name': 'user_generator_methods', 'schema': 'gen19', 'spec': 'SpecVal', 'alpha': {'newv', 'gen'}, 'vals': VALS,
+         'gen': 'user', 'userids': USERIDS, 'bound': {'H': 1, 'G': 1}, 'invariants': inv, 'properties': props,
+         'budget': 5000, 'maxlen': 12, 'random': random_runs, 'opt': {'gen_style': 'methods'}},
         {'name': 'uuid_generator', 'schema': 'gen19', 'model': False, 'bound': 2, 'gen': 'uuid', 'random': random_runs},
         {'name': 'uuid_valued', 'schema': 'valued', 'model': False, 'bound': 2, 'gen': 'uuid', 'random': random_runs},
         {'name': 'int_valued', 'schema': 'valued', 'model': False, 'bound': 2, 'random': random_runs},
